@@ -27,7 +27,7 @@ package circuitbreaker
 //@ spec func nListeners() = len(stateChangeListeners)
 
 //@ func (b *circuitBreakerBase) fromClosedToOpen(snapshot) ok
-//@   replay breaker_stale_deadline
+//@   replay breaker_stale_deadline for deadline-before-open
 //@   concurrent C12
 //@   shared deref(b.state), b.nextRetryTimestampMs, b.curProbeNumber
 //@   ensures[reported-iff-own-cas]{C12} gToOpen == old(gToOpen) + (ok ? nListeners() : 0) && (ok && nListeners() > 0 ==> gToOpenPrev == Closed) && (ok <==> wrote(deref(b.state), Closed, Open))
@@ -44,7 +44,7 @@ package circuitbreaker
 //@     invariant gToOpen == old(gToOpen) + #i && (#i > 0 ==> gToOpenPrev == Closed)
 
 //@ func (b *circuitBreakerBase) fromHalfOpenToOpen(snapshot) ok
-//@   replay breaker_stale_deadline
+//@   replay breaker_stale_deadline for deadline-before-open
 //@   concurrent C12
 //@   shared deref(b.state), b.nextRetryTimestampMs, b.curProbeNumber
 //@   ensures[reported-iff-own-cas]{C12} gToOpen == old(gToOpen) + (ok ? nListeners() : 0) && (ok && nListeners() > 0 ==> gToOpenPrev == HalfOpen) && (ok <==> wrote(deref(b.state), HalfOpen, Open))
